@@ -78,7 +78,7 @@ def _snap(v, ref, memo):
         if n is None:
             d = _h("v", repr(canon(v, ref)))
         else:
-            kids = [fn + "=" + _snap(getattr(v, fn, None), ref, memo) for fn, _ in ref.cls[n]["fields"]]
+            kids = [fn + "=" + _snap(ref.field(v, n, fn), ref, memo) for fn, _ in ref.cls[n]["fields"]]
             init = getattr(v, "gengy_init_values", None)
             init_d = [_snap(x, ref, memo) for x in init] if isinstance(init, (list, tuple)) else ["<none>"]
             d = _h(n, *kids, "init", *init_d)
